@@ -115,6 +115,13 @@ P.update({
             'CollapseAs followed by Collapse() makes every later evaluated point satisfy the relation exactly, also after a second collapse, and is not reported again.',
             'DESIGN.md#c11', 'collapse_cost and termination of the whole collapse loop beyond the unrolled steps are outside the claim.'),
 })
+P.update({
+    'C12': (True, 'translation_validation',
+            'Each generated system (and the fixed corpus) is passed through the real simplify(all=True) / solve / linear_symbolic / symbolic_bounds; input and every '
+            'returned case are translated by an independent ast->z3 interpreter and z3 decides over all real evaluation points the two inclusions strong(input) => '
+            'weak(output) and strong(output) => weak(input) with margin 1e-9*(1+|x|) (absorbs only sympy\'s 15-digit printing), plus exact equivalence (boundary points '
+            'included) when all coefficients are dyadic; counterexample points are re-evaluated with Python eval.', 'DESIGN.md#c12', ''),
+})
 
 NOT_YET = 'check not built yet in this round (planned: DESIGN.md section 4)'
 
